@@ -841,7 +841,7 @@ func parseTxFilter(s string) *old_faithful_grpc.StreamTransactionsFilter {
 
 // gsfaRisk: the op takes the goroutine branch of processSlotTransactions — a panic there kills the process
 func (w *c08World) gsfaRisk(f *old_faithful_grpc.StreamTransactionsFilter, start uint64, end *uint64) bool {
-	e := start + maxSlotsToStream
+	e := start + 100 // maxSlotsToStream (only the order of magnitude matters here)
 	if end != nil {
 		e = *end
 	}
@@ -2001,7 +2001,11 @@ func TestVerifC08(t *testing.T) {
 		out := w.execOp(line)
 		nontrivial := out != "panic" && !strings.Contains(out, "e-32700") && out != "http-reject" && out != "ok"
 		s.Op(line, out, nontrivial)
-		s.Count("outcome:" + strings.SplitN(out, " ", 2)[0])
+		oc := strings.SplitN(out, " ", 2)[0]
+		if k := strings.IndexByte(oc, ';'); k >= 0 {
+			oc = "get-stream-ends-with:" + oc[k+1:]
+		}
+		s.Count("outcome:" + oc)
 		if strings.HasPrefix(out, "child-") || strings.HasPrefix(out, "unknown") || strings.HasPrefix(out, "world-mismatch") {
 			s.Violation("harness could not execute op: "+out+" | "+line, "C08:harness-op-failed", s.Replay([]string{curWorld, line}))
 		}
